@@ -107,6 +107,9 @@ SafeOK(r) ==
     /\ (r.err = "magic" => RefStatus(r) = "bad_magic")
     /\ r.leaked = 0
     /\ r.mem.allocMiB <= 64 + 2 * (r.conc + 3) * r.maxblockMiB + 3 * r.deliveredMiB
+    \* a leading skippable frame makes exactly the announced number of bytes disappear: what follows is read as the
+    \* specification reads it (skipfirst: the input starts with one of the sixteen skippable magics)
+    /\ (r.skipfirst /\ r.outcome = "clean" => SoundOK(r))
 
 \* C15 (Reader side): the source is a valid frame served with some fragmentation pattern and possibly
 \* failing at its k-th Read call (r.hit: that call was really made)
